@@ -107,14 +107,16 @@ pub fn take_events() -> Vec<Event> {
 
 #[inline]
 pub(crate) fn emit(f: impl FnOnce() -> Event) {
-    HOOKS.with(|h| {
-        if let Ok(mut h) = h.try_borrow_mut() {
-            if h.record {
-                let e = f();
+    // the event is built outside of the borrow: building it may consult the hooks again
+    let record = HOOKS.with(|h| h.try_borrow().map(|h| h.record).unwrap_or(false));
+    if record {
+        let e = f();
+        HOOKS.with(|h| {
+            if let Ok(mut h) = h.try_borrow_mut() {
                 h.events.push(e);
             }
-        }
-    });
+        });
+    }
 }
 
 /// called by the allocator for every allocation request; true = start a collection now
